@@ -16,7 +16,10 @@ TClauses(c) ==
      \cup F("error_type", c.parse.cls \notin (Allowed \cup {"timeout"}) \/ c.run.cls \notin (Allowed \cup {"timeout"}))
      \cup F("syntax_is_parse_error", synbad /\ (c.parse.cls # "parse_error" \/ c.run.cls # "parse_error"))
      \cup F("has_position", (c.parse.cls = "parse_error" /\ ~c.parse.haspos) \/ (c.run.cls = "parse_error" /\ ~c.run.haspos))
-     \cup F("wellformed_not_syntax_error", ~synbad /\ Outcome(toks).v = "ok" /\ c.parse.cls = "parse_error")
+     \* (an integer literal of more than 4300 digits is grammatical, but the host language cannot convert it: the
+     \*  implementation refuses it with a JaqalParseError at the literal - a JaqalError with a position, which C16 allows)
+     \cup F("wellformed_not_syntax_error", ~synbad /\ Outcome(toks).v = "ok" /\ c.parse.cls = "parse_error" /\
+              ~\E j \in DOMAIN ts : ts[j].t = "INT" /\ MatchInt(c.text, ts[j].p) > 4300)
 \* trigger predicates for known findings (evaluated here, never in the harness)
 TTriggers(c) ==
   LET ts == Lex(c.text) IN
